@@ -14,6 +14,7 @@ HARNESSES = {
     'C04': ['c04_float_max_order', 'c04_float_min_order', 'c04_float_compare', 'c04_float_divide_guard', 'c04_float_from'],
     'C13': ['l1_active_bits', 'l2_normal_new'],
     'C08': ['c08_pushtype_equals_scalar'],
+    'C10': ['c10_unfired_vector', 'c10_unfired_code', 'c10_unfired_graph'],
     'C09': ['b_c09_bool_vector_count', 'b_c09_int_vector_sum', 'b_c09_int_vector_remove', 'b_c09_int_vector_bool_index',
             'b_c09_int_vector_sort', 'b_c09_float_vector_sort_total'],
     'C01': ['b_c09_bool_vector_count', 'b_c09_int_vector_sum', 'b_c09_int_vector_remove', 'b_c09_int_vector_bool_index',
@@ -25,6 +26,9 @@ WHAT = {
     'c04_float_compare': 'FLOAT.< > = equal the IEEE comparison of (second, top); all f32 pairs',
     'c04_float_divide_guard': 'FLOAT./: no result for a +0.0/-0.0 divisor, exactly one result otherwise; all f32 dividends, divisors in {+-0, 1, NaN, +-inf}',
     'c08_pushtype_equals_scalar': 'PushType::equals on Float/Int/Bool literals is exactly `==` of the values and false across kinds (assumed contract pt_eq); all operand values',
+    'c10_unfired_vector': 'external-bodied vector instructions leave the empty state untouched (no operands => nothing pushed anywhere)',
+    'c10_unfired_code': 'CODE.CONTAINS / MEMBER / DISCREPANCY leave the empty state untouched',
+    'c10_unfired_graph': 'GRAPH.EDGE*HISTORY / NODE*NEIGHBORS / PREDECESSORS / SUCCESSORS leave the empty state untouched',
     'c04_float_from': 'FLOAT.FROMINTEGER / FLOAT.FROMBOOLEAN values; all i32 / bool',
     'l1_active_bits': 'float lemma L1 (assumed in random_bool_vector): 0 <= bits <= size, bits < i32::MAX; all (f32 in [0,1], i32 >= 0)',
     'l2_normal_new': 'float lemma L2 (axiom ax_normal_std_ok): rand_distr Normal::new(m, s).is_ok() == s.is_finite(); all f32 pairs',
